@@ -69,6 +69,9 @@ func main() {
 		os.Exit(2)
 	}
 	name := flag.Arg(0)
+	if name == "canoncheck" {
+		os.Exit(canonCheck())
+	}
 	if name == "replay" {
 		// replay: read protocol lines (with or without `| output`) and re-execute them
 		sc := bufio.NewScanner(os.Stdin)
